@@ -41,9 +41,10 @@ ACTIONS = ["ASelectHandler", "AEncodePassword", "AAuthUser", "AAuthOwner", "AAut
 SPACES = {
     "quick": [("auth", "AuthQuick", "PairsQuick", "AllTried", "CanonItem"),
               ("content", "ContentQuick", "CanonPair", "OpenTried", "AllItems")],
-    "thorough": [("auth", "AuthFull", "PairsFull", "AllTried", "CanonItem"),
+    "thorough": [("auth", "AuthFull", "PairsQuick", "AllTried", "CanonItem"),
+                 ("authpw", "AuthPw", "PairsFull", "AllTried", "CanonItem"),
                  ("content", "ContentFull", "CanonPair", "OpenTried", "AllItems"),
-                 ("mixed", "MixedCfg", "MixedPairs", "AllTried", "AllItems")],
+                 ("mixed", "MixedCfg", "MixedPairs", "MixedTried", "AllItems")],
 }
 PERM_ORDER = ("print", "modify", "extract")
 
@@ -226,7 +227,7 @@ def direction_a(ck, dev):
     for i, (name, *consts) in enumerate(spaces):
         ck.add_tlc(results[i], "%s space: intended design (Dev = {}, invariants without excuses) and as coded (Dev = %s, "
                                "invariants up to the named deviations)" % (name, sorted(dev)))
-        need = [a for a in ACTIONS if not (name == "auth" and a in ("AObserveTrailer", "AGetObjCached", "ASetObjid",
+        need = [a for a in ACTIONS if not (name.startswith("auth") and a in ("AObserveTrailer", "AGetObjCached", "ASetObjid",
                                                                     "AStreamDecode", "AFilters", "AParseObjStm"))
                 and not (name == "content" and a == "AReject")]
         require_coverage(results[i], need)
